@@ -109,6 +109,45 @@ CHECKS.update({
     ),
 })
 
+CHECKS.update({
+    "C05": dict(
+        category="fault_enumeration",
+        technique="exhaustive fault-point enumeration on the real engine: the victim future is dropped at every suspension point; every executor activation is made to panic at every read position; plus deviation-bounded schedule exploration of victim + concurrent reader",
+        text=("For every scenario (8 programs x in-memory / DbBacked<MemKv> x victim in {query after an edit, whole input session, session with "
+              "refresh}) the uncancelled run is measured and the victim is then dropped at its n-th Pending for EVERY n; every executor "
+              "activation of the run is made to panic before its first read and after each read. After each fault: the drop does not panic, an "
+              "executor panic reaches the caller, nothing else panics (process-wide hook + panics swallowed by detached tasks), the same query "
+              "again and an edit + query of every node return from-scratch values, the engine shuts down and a new engine on the same store "
+              "answers from scratch. S: victim cancelled at every point while a second task queries the same root, all schedules with <= 1 (2) "
+              "deviations."),
+        design_ref="DESIGN.md 4/C05",
+        note=("Suspension points: storage reads (single-flight loads can suspend), the engine's cooperative yields, lock waits, joins. The insert/remove "
+              "futures of the shipped storage engines never suspend and are therefore not cancellation points (with a user-supplied storage engine whose "
+              "writes suspend, an active write batch can be dropped: observed, documented in DESIGN.md, not claimed)."),
+    ),
+    "C06": dict(
+        category="exploration",
+        technique="exhaustive enumeration of small dependency graphs x explicit-state BFS over histories on the real engine against the literal statement as oracle, plus deviation-bounded schedule exploration of concurrent entry into one SCC",
+        text=("Every directed graph on 1-2 nodes (every edge absent / fixed / switched by one of two input bits, every node normal or firewall) and "
+              "on 3 nodes with <= 3 (thorough: 4) edges x every history to depth 3 (4) over {set a switching bit, query all nodes in every order, "
+              "query one node}; oracle = nodes on a cycle of the input-determined graph evaluate to their cycle default, all others as from scratch "
+              "with the defaults substituted; every request completes. S: 2-3 tasks enter one strongly connected component (2-cycle, 3-cycle through "
+              "a firewall, two cycles sharing a node + outside consumer) from different members, all schedules with <= 2 (3) deviations."),
+        design_ref="DESIGN.md 4/C06",
+        note="Known findings F8 (cycle membership only along the first cyclic read of each member) and F14 (cycles closed through a firewall by an edit) are reported as KNOWN-FINDING; projections are not placed on cycles.",
+    ),
+    "C16": dict(
+        category="exploration",
+        technique="exhaustive enumeration of operation sequences on the real TinyLFU against a reference map with pin set; deviation-bounded schedule exploration of the per-query lock table",
+        text=("Every sequence to depth 6 (thorough 7) over {put, get, remove, pin, unpin (+notify), burst of 34 fresh keys} on 2-3 named keys for "
+              "capacities 1/2/3/8 and both unpin strategies: pinned keys stay resident with their latest value, unpinned keys have the latest value "
+              "or are absent, removed keys are absent, resident entries <= policy capacity + pinned + 33. S: two tasks take the exclusive lock of one "
+              "query twice each while a third touches 40-70 other queries on a lock table of capacity 1-2; a witness counter detects two holders."),
+        design_ref="DESIGN.md 4/C16",
+        note="Piggy-backed maintenance only; the frequency sketch and the intrusive list are exercised through the public API.",
+    ),
+})
+
 NOT_YET = {
 }
 
